@@ -1356,18 +1356,10 @@ func stepLeader(r *raft, m *pb.Message) error {
 		r.bcastAppend()
 		return nil
 	case pb.MsgReadIndex:
-		// only one voting member (the leader) in the cluster. A leader that was
-		// removed from the configuration (and has not stepped down) is not that
-		// member and must not answer from its local state.
-		if _, isVoter := r.trk.Voters[0][r.id]; isVoter && r.trk.IsSingleton() {
-			if resp := r.responseToReadIndexReq(m, r.raftLog.committed); resp.GetTo() != None {
-				r.send(resp)
-			}
-			return nil
-		}
-
 		// Postpone read only request when this leader has not committed
-		// any log entry at its term.
+		// any log entry at its term. This also holds for a single voter: after
+		// a restart its commit index may lag behind what an earlier incarnation
+		// already exposed, until the first entry of the new term commits.
 		if !r.committedEntryInCurrentTerm() {
 			r.pendingReadIndexMessages = append(r.pendingReadIndexMessages, m)
 			return nil
@@ -2163,6 +2155,15 @@ func releasePendingReadIndexMessages(r *raft) {
 }
 
 func sendMsgReadIndexResponse(r *raft, m *pb.Message) {
+	// only one voting member (the leader) in the cluster. A leader that was
+	// removed from the configuration (and has not stepped down) is not that
+	// member and must not answer from its local state.
+	if _, isVoter := r.trk.Voters[0][r.id]; isVoter && r.trk.IsSingleton() {
+		if resp := r.responseToReadIndexReq(m, r.raftLog.committed); resp.GetTo() != None {
+			r.send(resp)
+		}
+		return
+	}
 	// thinking: use an internally defined context instead of the user given context.
 	// We can express this in terms of the term and index instead of a user-supplied value.
 	// This would allow multiple reads to piggyback on the same message.
